@@ -14,23 +14,32 @@ Theorem followup_first s now inst :
   /\ s_pending (add_pending s now inst) = s_pending s ++ [inst].
 Proof. intros H. unfold add_pending. rewrite H. split; reflexivity. Qed.
 
-(* an instance that is still pending gets NO new chain (the stale-pending finding) *)
+(* while its chain is running an instance gets no second chain *)
 Theorem followup_not_restarted s now inst :
   mem inst (s_pending s) = true -> add_pending s now inst = s.
 Proof. intros H. unfold add_pending. now rewrite H. Qed.
 
+Definition forget_pending (s : st) (inst : bytes) : st :=
+  mkSt (s_cache s) (s_q s) (set_remove inst (s_pending s)) (s_resolved s) (s_retrans s).
+
+Lemma mem_set_remove x l : mem x (set_remove x l) = false.
+Proof.
+  unfold set_remove. induction l as [|y l IH]; simpl; [reflexivity|].
+  destruct (beq x y) eqn:E; simpl; [assumption|]. now rewrite E.
+Qed.
+
 (* while no SRV is cached every try asks (instance, ANY); tries 1 and 2 schedule the next one
-   500 ms later, try 3 schedules nothing *)
+   500 ms later, try 3 schedules nothing and takes the instance out of pending_resolves *)
 Theorem followup_step_any s now inst n :
   valid_instance_name inst = true -> bm_get inst (c_srv (s_cache s)) = None ->
   exec_resolve s now inst n =
   (if n <? 3
    then mkSt (s_cache s) (s_q s) (s_pending s) (s_resolved s)
              (s_retrans s ++ [(now + 500, RResolve inst (n + 1))])
-   else s,
+   else forget_pending s inst,
    [OQuery [(inst, TY_ANY)]]).
 Proof.
-  intros Hv Hs. unfold exec_resolve, query_unresolved. rewrite Hv, Hs. simpl.
+  intros Hv Hs. unfold exec_resolve, query_unresolved, forget_pending. rewrite Hv, Hs. simpl.
   destruct (followup_pinned n) as (_ & _ & _ & _ & _ & Hg & _). rewrite Hg.
   destruct (n <? 3); reflexivity.
 Qed.
@@ -53,10 +62,22 @@ Qed.
 Theorem followup_ends s now inst n recs :
   bm_get inst (c_srv (s_cache s)) = Some recs ->
   find (fun e => match get_addr (s_cache s) (srv_host e) with None => true | Some _ => false end) recs = None ->
-  exec_resolve s now inst n = (s, []).
+  exec_resolve s now inst n = (forget_pending s inst, []).
 Proof.
-  intros Hs Hf. unfold exec_resolve, query_unresolved.
+  intros Hs Hf. unfold exec_resolve, query_unresolved, forget_pending.
   destruct (negb (valid_instance_name inst)); [reflexivity|]. now rewrite Hs, Hf.
+Qed.
+
+(* when the chain is over (third try done, or nothing missing) the instance is no longer
+   pending: a later ServiceFound of it starts a new chain (followup_first applies again) *)
+Theorem followup_over_allows_new_round s now inst n :
+  retry_guard n max_try = false \/ fst (query_unresolved (s_cache s) inst) = false ->
+  mem inst (s_pending (fst (exec_resolve s now inst n))) = false.
+Proof.
+  intros H. unfold exec_resolve. destruct (query_unresolved (s_cache s) inst) as [sent o]. simpl in H.
+  assert (Hc : sent && retry_guard n max_try = false).
+  { destruct H as [H|H]; rewrite H; [apply andb_false_r|reflexivity]. }
+  rewrite Hc. simpl. apply mem_set_remove.
 Qed.
 
 (* the chain of an instance whose SRV never arrives: exactly three questions, at +500, +1000,
